@@ -146,17 +146,23 @@ Chain == /\ IsEv("chain") /\ E.exc = ""
          /\ E.kept <= E.n
          /\ UNCHANGED <<ob, ed, stk, tls, boxof, fins>>
 
+(* thousands of objects, a fraction of them reachable from a rooted Array of Ref: while rooted none of those is lost,  *)
+(* nothing is ever finalised twice, and nothing leaves the registry without being finalised                           *)
+Bulk == /\ IsEv("bulk") /\ E.exc = ""
+        /\ E.lost = 0 /\ E.twice = 0 /\ E.stale = 0
+        /\ UNCHANGED <<ob, ed, stk, tls, boxof, fins>>
+
 (* after Cello_Exit: teardown finalised every managed Node that was still there; nothing twice *)
 Exit == /\ IsEv("exit")
         /\ (Mode = "final" =>
-              /\ E.twice = <<>>
+              /\ E.twice = <<>> /\ E.bulknever = 0 /\ E.bulktwice = 0
               /\ \A i \in 1..Len(E.fin) : E.fin[i] > 0 /\ E.fin[i] \notin fins
               /\ ToSet(E.never) \subseteq {i \in DOMAIN ob : ob[i].mode # 0 /\ ob[i].live}      \* only undeleted root / raw objects may remain
               /\ \A i \in LiveIds(ob) : (ob[i].mode = 0 /\ ob[i].kind \in {1, 2}) => i \in ToSet(E.fin))
         /\ UNCHANGED <<ob, ed, stk, tls, boxof, fins>>
 
 Next == \/ Reset \/ End \/ New \/ Link \/ CPush \/ CPop \/ CSet \/ CRem \/ KSet \/ KRem \/ Root \/ Tls \/ UnTls
-        \/ Del \/ Collect \/ StopStart \/ Chain \/ Exit
+        \/ Del \/ Collect \/ StopStart \/ Chain \/ Bulk \/ Exit
 Spec == Init /\ [][Next]_vars
 
 Accepted == LET d == TLCGet("stats").diameter IN
